@@ -9,7 +9,9 @@ ASSUMPTIONS = ['unsigned reps: the RESULT is required to be exact; the library r
                'the scale m_i and offset c_i are read off the code itself (r_i(0), r_i(1) - r_i(0)); the contract then pins them against the independent '
                'unit sizes and origins by cross-consistency, because C10 promises SOME positive integer scale and non-negative offset, not particular ones']
 
-LISTS_Q = [('C', 'K'), ('F', 'C'), ('K', 'F'), ('C', 'K', 'F'), ('X1', 'X2'), ('X1', 'K', 'C'), ('X3', 'C'), ('mK', 'F')]
+LISTS_Q = [('C', 'K'), ('F', 'C'), ('K', 'F'), ('C', 'K', 'F'), ('X1', 'X2'), ('X1', 'K', 'C'), ('X3', 'C'), ('mK', 'F'),
+           # a lower origin written in a finer unit next to a higher origin written in a coarser one, in both orders, and mixed magnitudes
+           ('C', 'X4'), ('X4', 'C'), ('X5', 'X4'), ('X4', 'F'), ('X2', 'X5', 'C'), ('mK', 'X4')]
 LISTS_T = LISTS_Q + [('X2', 'F', 'mK'), ('X1', 'X3'), ('K', 'mK'), ('X2', 'C', 'K'), ('F', 'X1', 'X2'), ('C', 'mK', 'X3')]
 
 
